@@ -38,7 +38,8 @@ Inductive c17case :=
 (* a request of the scaffolding of a history, made on a healthy cluster (every server up), failed: creating the
    collection, reading its record back through a node, filling or searching it before the recorded part starts,
    reading a shard on the server that owns it. what: 1 CreateCollection, 2 GetCollection, 3 InsertPoints,
-   4 SearchPoints, 5 DeleteCollection, 6 GetShardsInfo, 7 a shard read on its owner *)
+   4 SearchPoints, 5 DeleteCollection, 6 GetShardsInfo, 7 a shard read on its owner; 8: a search answer already
+   handed to its caller was modified by a later search *)
 | CUnexpected (what : N).
 
 (* ------------------------------------------------------------------ helpers *)
